@@ -559,7 +559,22 @@ def c03(ctx: Ctx) -> None:
                   'the function receives the round set itself', 'the function receives something other than the retained round set',
                   construct=construct_key('BUFFER.daemon', 'argument of the call'))
     # S7 / S8 / S9 on the entry points (private helpers inlined)
-    adaptors = {'__call__': '_obj_to_aiter', 'await_': '_awaitable_to_aiter', 'map': 'to_async_iter', 'amap': None}
+    # the adaptors by what they do, not by their names: a one-parameter async generator of the module that yields its
+    # parameter ('obj') / the awaited parameter ('aw') exactly once
+    adaptor_kind: Dict[str, str] = {}
+    for sc_ in p.unit(FILE).module_scope.children:
+        if sc_.kind == 'function' and sc_.is_async and sc_.is_generator and len(sc_.params) == 1:
+            ga_ = build(sc_, p)
+            ys_ = [n for n in ga_.nodes if n.kind == 'yield']
+            if len(ys_) == 1:
+                yv = norm(resolve(ga_, ys_[0], ys_[0].ast.value)) if ys_[0].ast.value is not None else None
+                if yv == sc_.params[0]:
+                    adaptor_kind[sc_.name] = 'obj'
+                elif yv == f'await {sc_.params[0]}':
+                    adaptor_kind[sc_.name] = 'aw'
+    want_kind = {'__call__': 'obj', 'await_': 'aw'}
+    adaptors = {'map': 'to_async_iter', 'amap': None}
+    used_adaptors: List[str] = []
     s9_seen = False
     for ep in r.entry_points:
         ge = _entry_graph(r, ep)
@@ -576,7 +591,13 @@ def c03(ctx: Ctx) -> None:
         w = must_pass(ge, [ge.entry], [ge.exit], puts + direct) if (puts or direct) else None
         want = adaptors.get(ep.name)
         shape = False
-        if len(payloads) == 1:
+        if len(payloads) == 1 and ep.name in want_kind:
+            a = payloads[0]
+            shape = isinstance(a, ast.Call) and isinstance(a.func, ast.Name) and adaptor_kind.get(a.func.id) == want_kind[ep.name] \
+                and len(a.args) == 1 and isinstance(a.args[0], ast.Name) and a.args[0].id == argp
+            if shape:
+                used_adaptors.append(a.func.id)
+        elif len(payloads) == 1:
             a = payloads[0]
             if want is None:
                 shape = isinstance(a, ast.Name) and a.id == argp
@@ -610,7 +631,7 @@ def c03(ctx: Ctx) -> None:
                               construct=construct_key(host, f'{r.FLAG}.{n.ast.func.attr}()'))
     if not s9_seen:
         ctx.holds('C03-S9', 'entry points never mutate the completion flag directly', f'{FILE}:{r.cls.lineno}')
-    for ad in ('_obj_to_aiter', '_awaitable_to_aiter'):
+    for ad in sorted(set(used_adaptors)):
         sc = p.find(FILE, ad)
         if sc is None:
             ctx.undecided('C03-S7', f'adaptor {ad}', f'{FILE}:1', 'vanished')
@@ -857,18 +878,17 @@ def c07(ctx: Ctx) -> None:
     # W7
     if r.wait_anywhere is not None:
         ga = build(r.wait_anywhere, p)
-        rets = [n for n in ga.nodes if n.kind == 'return']
-        ok = bool(rets)
+        rets = [n for n in ga.nodes if n.kind == 'await']
+        goods = []
         for rn in rets:
             v = resolve(ga, rn, rn.ast.value)
-            if isinstance(v, ast.Await):
-                v = v.value
-            good = False
             if isinstance(v, ast.Call) and isinstance(v.func, ast.Name) and v.func.id == 'ensure_aw' and len(v.args) == 2:
                 a0, a1 = v.args
-                good = isinstance(a0, ast.Call) and self_attr(a0.func) == 'wait' and self_attr(a1) == 'loop' and \
-                    any(k.arg == 'cancel' and isinstance(k.value, ast.Name) and k.value.id == 'cancel' for k in a0.keywords)
-            ok = ok and good
+                if isinstance(a0, ast.Call) and self_attr(a0.func) == 'wait' and self_attr(a1) == 'loop' and \
+                        any(k.arg == 'cancel' and isinstance(k.value, ast.Name) and k.value.id == 'cancel' for k in a0.keywords):
+                    goods.append(rn)
+        # every normal path awaits the delegated wait (returned or not: wait() returns None)
+        ok = bool(goods) and must_pass(ga, [ga.entry], [ga.exit], goods) is None
         ctx.check('C07-W7', f'wait_from_anywhere: {[norm(x.ast) for x in rets]}', f'{FILE}:{r.wait_anywhere.lineno}', ok,
                   'same cancel flag, the stored loop', 'foreign waiters do not run wait() on the owning loop with their cancel flag',
                   construct=construct_key(r.wait_anywhere.qualname, 'delegation'))
